@@ -40,8 +40,10 @@ def tagged_db(scope='extended'):
         'Tag/A-b': [era('PolB', 10000, 'H%sT', 'Zone Tag/A-b raw-h1', offset=-36000)],
     }
     rules = {
-        'PolB': [rule(1998, 2006, 4, 7, 1, 7200, 3600, 'D', 'Rule PolB raw-b1'), rule(1998, 9999, 10, 7, 0, 7200, 0, 'S', 'Rule PolB raw-b2'),
-                 rule(2007, 9999, 3, 7, 8, 10800, 3600, 'DD', 'Rule PolB raw-b3', suffix='s'), rule(2007, 2009, 11, 7, 1, 7200, 0, 'S', 'Rule PolB raw-b4')],
+        # the Rule lines of a policy need not come in FROM order (the TZ database lists Syria's 2012 rule before its 2009 one): the
+        # first line here starts later than the two after it, so a table that re-orders them differs from one that does not
+        'PolB': [rule(2007, 9999, 3, 7, 8, 10800, 3600, 'DD', 'Rule PolB raw-b3', suffix='s'), rule(1998, 2006, 4, 7, 1, 7200, 3600, 'D', 'Rule PolB raw-b1'),
+                 rule(1998, 9999, 10, 7, 0, 7200, 0, 'S', 'Rule PolB raw-b2'), rule(2007, 2009, 11, 7, 1, 7200, 0, 'S', 'Rule PolB raw-b4')],
         'PolA': [rule(2001, 2001, 5, 0, 17, 3600, 1800, 'H', 'Rule PolA raw-a1', suffix='u'), rule(2001, 9999, 9, 1, -20, 0, 0, '-', 'Rule PolA raw-a2')],
     }
     if scope == 'basic':
@@ -50,7 +52,7 @@ def tagged_db(scope='extended'):
                 e['untilTimeSuffix'] = 'w'
                 if e['rules'] == '-' or e['rules'] == ':':
                     e['rules'] = '-'
-        rules['PolB'][2]['letter'] = 'E'
+        rules['PolB'][0]['letter'] = 'E'
     def coll(prefix, why, n):
         # n entries, inserted in an order that is not the sorted one; the second entry carries two reasons
         out = {}
